@@ -1,6 +1,7 @@
 (* C05 — Every emitted message is well-formed MIDI. *)
 From Coq Require Import List NArith ZArith.
-From HIDI Require Import Base.AList Model.Device Proofs.DeviceBasics Proofs.DeviceWf.
+From HIDI Require Import Base.AList Model.Notes Model.Device Model.Parser Model.AnalogF Model.AnalogSpec Proofs.DeviceBasics Proofs.DeviceWf
+  Proofs.ParserDevice Proofs.AnalogGrid Proofs.AnalogProofs.
 Import ListNotations.
 Open Scope N_scope.
 
@@ -29,3 +30,39 @@ Theorem C05_default_channel_refuted :
   hd [] (all_midi (snd (run c [EKey 0 1 1]))) = [255; 123; 0] /\ wf_msgb [255; 123; 0] = false.
 Proof. exact default_channel_zero_refuted. Qed.
 Print Assumptions C05_default_channel_refuted.
+
+(* ---- where the hypotheses of C05_wf come from *)
+
+(* every file the (fixed) parser accepts gives the device defaults satisfying [wf_defaults] and a valid default mapping,
+   whatever numbering [subid] of the sub-handler names is used ... *)
+Theorem C05_parser_gives_wf : forall T t c subid,
+  convert T t = Ok c ->
+  wf_defaults (to_device subid c) /\
+  (d_mapping (to_device subid c) < length (mappings (to_device subid c)))%nat.
+Proof. exact accepted_gives_wf. Qed.
+Print Assumptions C05_parser_gives_wf.
+
+(* ... and every axis entry the device can look up has controller numbers, notes and offsets in range *)
+Theorem C05_parser_axis_in_range : forall T t c subid s sub code a,
+  convert T t = Ok c ->
+  find_analog (to_device subid c) s sub code = Some a ->
+  a_cc a < 128 /\ a_ccneg a < 128 /\ a_note a < 128 /\ a_noteneg a < 128 /\ a_off a < 16 /\ a_offneg a < 16.
+Proof. exact accepted_analog_in_range. Qed.
+Print Assumptions C05_parser_axis_in_range.
+
+(* the float layer: pitch-bend data bytes are below 128 for EVERY float (NaN and infinities included), and a sample
+   carries exactly the axis entry it was built from *)
+Theorem C05_sample_fields : forall code a canneg v,
+  sa_an (make_sample code a canneg v) = a /\ sa_code (make_sample code a canneg v) = code /\
+  sa_lsb (make_sample code a canneg v) < 128 /\ sa_msb (make_sample code a canneg v) < 128.
+Proof. exact make_sample_fields. Qed.
+Print Assumptions C05_sample_fields.
+
+(* the controller VALUE byte: on the grid of C06 (every raw value of the 8-bit and hat axes, 20 deadzones, all flag and
+   kind combinations) every transmitted message is well-formed - kernel evaluation; off the grid this conjunct is covered
+   by the run-time monitor only (including non-finite and out-of-[0,1) deadzones, which the parser accepts) *)
+Theorem C05_grid_axis_messages : forall b g raw,
+  In b dz_bits -> In g (grid_for (f_of_bits b)) -> (q_mn g <= raw <= q_mx g)%Z ->
+  forallb wf_msgb (axis_msgs g raw) = true.
+Proof. exact grid_wf. Qed.
+Print Assumptions C05_grid_axis_messages.
